@@ -60,7 +60,8 @@ impl Number for i32 {
         lhs.checked_add(rhs)
     }
     fn checked_mul(lhs: Self, rhs: i32) -> Option<Self> {
-        lhs.checked_mul(rhs)
+        // TeX.2021.105: mult_integers accepts products in [-(2^31-1), 2^31-1] only
+        lhs.checked_mul(rhs).filter(|product| *product != i32::MIN)
     }
     fn wrapping_mul(lhs: Self, rhs: i32) -> Self {
         lhs.wrapping_mul(rhs)
